@@ -334,9 +334,14 @@ CfgOK(c) ==
    /\ (c.prior # "none" => /\ DocOf(c.prior) = DocOf(c.reqClass) /\ c.gate \in {"validator", "vhandler"} /\ c.errMode = "custom"
                             /\ c.opt = "none" /\ c.auth = "callback" /\ c.primer = "none")
 
+WithPrior(c0, p) == [strict |-> c0.strict, reqClass |-> c0.reqClass, errMode |-> c0.errMode, gate |-> c0.gate, opt |-> c0.opt,
+                     primer |-> c0.primer, auth |-> c0.auth, prior |-> p]
+
 Init ==
-   /\ cfg \in [strict : BOOLEAN, reqClass : ReqClasses, errMode : ErrModes, gate : Gates, opt : Opts, primer : Primers, auth : Auths, prior : Priors]
-   /\ CfgOK(cfg)
+   \* all c with CfgOK(c) -- enumerated so that TLC does not walk the whole product with Priors
+   /\ \E c0 \in [strict : BOOLEAN, reqClass : ReqClasses, errMode : ErrModes, gate : Gates, opt : Opts, primer : Primers, auth : Auths] :
+         /\ CfgOK(WithPrior(c0, "none"))
+         /\ \E p \in Priors : cfg = WithPrior(c0, p) /\ CfgOK(cfg)
    /\ phase = "start" /\ w = WInit /\ hdr = "none" /\ script = <<>> /\ cOut = <<>>
    /\ invoked = 0 /\ errs = <<>> /\ logs = <<>>
 
